@@ -1,4 +1,5 @@
 use ignore::gitignore;
+use std::path::PathBuf;
 
 use crate::config::{FileName, IgnoreList};
 
@@ -27,9 +28,12 @@ impl IgnorePathSet {
             // (e.g. a file formatted with a `--config-path` from somewhere else): such a file is
             // not covered by them.
             FileName::Real(p) if p.is_absolute() && !p.starts_with(self.ignore_set.path()) => false,
+            // The matcher strips the directory of the rustfmt.toml off the path byte by byte and
+            // panics on what `starts_with` (which compares components) lets through: hand it the
+            // path in normal form (`a//b` and `a/./b`, e.g. from a `#[path]` attribute, are `a/b`).
             FileName::Real(p) => self
                 .ignore_set
-                .matched_path_or_any_parents(p, false)
+                .matched_path_or_any_parents(p.components().collect::<PathBuf>(), false)
                 .is_ignore(),
         }
     }
